@@ -47,6 +47,8 @@ def build(params, chooser):
     w.connect_fail = set()
 
     class FakeConnection:
+        wrapped_connection = None       # attribute of the real Connection read by the proxy pool
+
         def __init__(self, address, hostname=None):
             self.address = address
             self.hostname = hostname
@@ -106,8 +108,27 @@ def build(params, chooser):
                 return c
             self._connection_factory = numbered
     poolmod.HostPool = VHostPool
-    w.pool = ConnectionPool(max_host_count=params['M'], resolver=FakeResolver(),
-                            connection_factory=FakeConnection)
+    if params.get('proxy'):
+        # the pool variant used with --http-proxy/--https-proxy: every connection goes to the
+        # proxy address, is connected inside acquire_proxy(), and is keyed by the origin host
+        from wpull.proxy.client import HTTPProxyConnectionPool
+        w.pool = HTTPProxyConnectionPool(('proxy.test', 3128), max_host_count=params['M'],
+                                         resolver=FakeResolver(),
+                                         connection_factory=FakeConnection)
+
+        # the CONNECT exchange itself is not modelled (fake connections carry no bytes): it
+        # is one more await that the environment completes, or fails like a refused connect
+        @asyncio.coroutine
+        def establish_tunnel(connection, address):
+            idx = connection._active_connection.idx
+            yield from env.gate('connect:%dt' % idx)
+            if idx in w.connect_fail:
+                raise NetworkError('proxy refused the tunnel')
+            connection.tunneled = True
+        w.pool._establish_tunnel = establish_tunnel
+    else:
+        w.pool = ConnectionPool(max_host_count=params['M'], resolver=FakeResolver(),
+                                connection_factory=FakeConnection)
     seq = [0]
     w.pool._release_tasks = ChoiceSet(chooser, lambda t: t._verif_seq, 'release.pop')
     orig_nwr = w.pool.no_wait_release
@@ -140,6 +161,9 @@ def client(w, i, key, program):
     st = w.state
 
     def took(c):
+        if c is None:
+            w.violation = 'I1 client %d: acquire returned None instead of a connection' % i
+            return
         if id(c) in w.holders:
             w.violation = ('I1 connection handed to client %d while held by client %d'
                            % (i, w.holders[id(c)]))
@@ -344,7 +368,7 @@ def _run(w, params, chooser):
                 if lab.startswith('connect:'):
                     def f(lab=lab):
                         fb['refuse'] -= 1
-                        w.connect_fail.add(int(lab.split(':')[1]))
+                        w.connect_fail.add(int(lab.split(':')[1].rstrip('t')))
                         env.fire(lab)
                     out.append(('refuse:' + lab, f))
         if fb.get('close', 0) > 0:
@@ -485,6 +509,19 @@ def configs(tier):
         if tier != 'quick' and len(c['clients']) == 2:
             c2 = dict(c, dual=True)
             jobs.append(dict(params=c2, budget=1, prefix=[]))
+    # the proxy pool (plain HTTP through the proxy: no tunnel)
+    pcombos = [('sess_ok', 'sess_ok'), ('sess_ok', 'plain'), ('sess_exc', 'sess_twice'),
+               ('plain', 'ctx')]
+    if tier != 'quick':
+        pcombos += [('sess_ok', 'sess_ok', 'sess_ok'), ('sess_twice', 'plain', 'sess_exc'),
+                    ('ctx', 'ctx', 'plain')]
+    for ps in pcombos:
+        for M in (1, 2):
+            if M >= len(ps) and tier == 'quick':
+                continue
+            jobs.append(dict(params=dict(clients=[(0, p) for p in ps], M=M, proxy=True,
+                                         faults=dict(cancel=1, refuse=1, close=1, clean=1)),
+                             budget=1 if tier == 'quick' else 2, prefix=[]))
     if tier == 'quick':
         c2 = dict(out[0], dual=True)
         jobs.append(dict(params=c2, budget=1, prefix=[]))
